@@ -97,6 +97,11 @@ def configs(tier: str) -> list[dict]:
                   cache=False))
     c.append(dict(variant="fail", T=2, n=2, p=0, lines=True, bound=lb,
                   cache=False))
+    # reuse with a worker of the abandoned first pass still between taking
+    # its input and delivering the result when the second pass starts
+    for n_, k_, n2_ in ((2, 1, 1), (3, 1, 2), (4, 2, 2)):
+        c.append(dict(variant="reuse", T=1, n=n_, k=k_, n2=n2_, lines=True,
+                      bound=lb, cache=False))
     # -- cached vs uncached guard -------------------------------------
     c.append(dict(variant="full", T=1, n=2, cache=False, guard="full-1-2"))
     c.append(dict(variant="early", T=1, n=2, k=1, cache=False,
